@@ -69,12 +69,32 @@ func (it *oInterp) newSlice(t types.Type, n, c int) oSlice {
 
 // sliceLit evaluates a composite literal of slice type.
 func (fr *oFrame) sliceLit(x *ast.CompositeLit, t types.Type) oval {
-	vals := make([]oval, 0, len(x.Elts))
-	for _, el := range x.Elts {
-		if _, ok := el.(*ast.KeyValueExpr); ok {
-			return oTop{"keyed slice literal"}
+	et := elemType(t)
+	var vals []oval
+	if at, ok := t.Underlying().(*types.Array); ok {
+		if at.Len() > 1<<12 {
+			return oTop{"large array"}
 		}
-		vals = append(vals, fr.rvalue(fr.eval(el)))
+		vals = make([]oval, at.Len())
+		for i := range vals {
+			vals[i] = fr.it.zero(et)
+		}
+	}
+	idx := 0
+	for _, el := range x.Elts {
+		v := el
+		if kv, ok := el.(*ast.KeyValueExpr); ok {
+			k, ok := fr.eval(kv.Key).(oInt)
+			if !ok || k < 0 || k > 1<<12 {
+				return oTop{"slice literal with a non-constant key"}
+			}
+			idx, v = int(k), kv.Value
+		}
+		for len(vals) <= idx {
+			vals = append(vals, fr.it.zero(et))
+		}
+		vals[idx] = fr.rvalue(fr.eval(v))
+		idx++
 	}
 	return oSlice{typ: t, arr: &vals, lo: 0, hi: len(vals), capEnd: len(vals)}
 }
@@ -119,9 +139,13 @@ func (fr *oFrame) builtinCall(call *ast.CallExpr) (oval, bool) {
 			}
 			c = int(iv)
 		}
-		if n < 0 || (c >= 0 && c < n) || n > 1<<12 {
+		if n < 0 || (c >= 0 && c < n) {
 			fr.abort("panic: make with length %d capacity %d", n, c)
 			return oTop{"panic in make"}, true
+		}
+		if n > 1<<12 || c > 1<<12 {
+			fr.abort("panic: allocation of %d elements (capacity %d) at %s — above the model's limit of 4096: the size comes from an input count that nothing bounded", n, c, fr.it.p.Position(call.Pos()))
+			return oTop{"oversized make"}, true
 		}
 		return fr.it.newSlice(t, n, c), true
 	case "append":
